@@ -109,6 +109,8 @@ def run_binary(cell):
     f = cell["f"]
     k1, k2 = cell["operands"]
     a1, a2 = _bin_operands(cell)
+    if cell.get("dt", "f8") == "f4":
+        a1, a2 = a1.astype(np.float32), a2.astype(np.float32)
     if k1 == "s":
         a1 = a1.reshape(-1)[:1].reshape(())
     if k2 == "s":
@@ -118,6 +120,7 @@ def run_binary(cell):
     except ValueError:
         return None
     mgf, npf = getattr(mg, f), getattr(np, f)
+    odt = np.float32 if cell.get("dt", "f8") == "f4" else np.float64      # dtype of out= targets: the operands' own
 
     def fresh():
         return operand(k1, a1), operand(k2, a2)
@@ -133,6 +136,8 @@ def run_binary(cell):
                     r = mgf(x, y)
                 elif sp == "np":
                     r = npf(x, y)
+                elif sp == "commuted":
+                    r = mgf(y, x)
                 elif sp in ("op", "rop"):
                     r = OPS[OPNAME[f]](x, y)
                 elif sp == "iop":
@@ -143,16 +148,16 @@ def run_binary(cell):
                     if r is not t:
                         return ("iop-identity", "same object", "new object")
                 elif sp in ("mg_out", "np_out"):
-                    o = mg.tensor(np.zeros(rshape))
+                    o = mg.tensor(np.zeros(rshape, dtype=odt))
                     r = (mgf if sp == "mg_out" else npf)(x, y, out=o)
                     if r is not o:
                         return (sp + "-identity", "out tensor returned", type(r).__name__)
                 elif sp == "mg_where_out":
                     mask = (np.arange(int(np.prod(rshape)) if rshape else 1).reshape(rshape) % 2).astype(bool)
-                    o = mg.tensor(np.full(rshape, 9.0))
+                    o = mg.tensor(np.full(rshape, 9.0, dtype=odt))
                     r = mgf(x, y, where=mask, out=o)
                     expect = npf(raw(x) if not isinstance(x, float) else x, raw(y) if not isinstance(y, float) else y,
-                                 where=mask, out=np.full(rshape, 9.0))
+                                 where=mask, out=np.full(rshape, 9.0, dtype=odt))
                     if not close(r.data.tolist(), expect.tolist()):
                         return ("where+out values", expect.tolist(), r.data.tolist())
                     continue
@@ -171,7 +176,7 @@ def run_binary(cell):
         if got["kind"] != ref["kind"]:
             return (f"kind({sp})", ref["kind"], got.get("kind"))
         fields = ["val", "dtype", "shape", "grads"] + (["constant"] if sp in ("np", "op", "rop") else [])
-        if sp == "iop" or (sp in ("mg_out", "np_out") and ref["grads"] is None):
+        if sp in ("iop", "commuted") or (sp in ("mg_out", "np_out") and ref["grads"] is None):
             fields = ["val", "dtype", "shape"]
         r = compare(ref, got, fields)
         if r is not None:
